@@ -5,6 +5,7 @@ import (
 	"crypto/sha256"
 	"encoding/hex"
 	"syscall"
+	"time"
 	"encoding/json"
 	"fmt"
 	"os"
@@ -247,6 +248,8 @@ func CoqEval(workdir, name, imports, listType, fn string, cases []string, par in
 				sh.err = err
 				return
 			}
+			release := acquireCoqSlot()
+			defer release()
 			cmd := exec.Command("/bin/sh", "-c", fmt.Sprintf("ulimit -s 4000000 2>/dev/null || ulimit -s unlimited; exec timeout 900 coqc -Q %q Sebuf -w -all %q", filepath.Join(coqdir, "theories"), file))
 			cmd.Dir = workdir
 			var stdout, stderr bytes.Buffer
@@ -457,4 +460,24 @@ func CoqChk() (string, error) {
 	}
 	os.WriteFile(cache, []byte(txt), 0o644)
 	return txt, nil
+}
+
+// acquireCoqSlot takes one of 16 machine-wide slots (flock on files under the cache) so that
+// checks started concurrently never run more than 16 coqc processes in total.
+func acquireCoqSlot() func() {
+	dir := filepath.Join(CacheRoot(), "coqslots")
+	os.MkdirAll(dir, 0o755)
+	for {
+		for k := 0; k < 16; k++ {
+			f, err := os.OpenFile(filepath.Join(dir, fmt.Sprintf("slot%d", k)), os.O_CREATE|os.O_RDWR, 0o644)
+			if err != nil {
+				continue
+			}
+			if syscall.Flock(int(f.Fd()), syscall.LOCK_EX|syscall.LOCK_NB) == nil {
+				return func() { syscall.Flock(int(f.Fd()), syscall.LOCK_UN); f.Close() }
+			}
+			f.Close()
+		}
+		time.Sleep(200 * time.Millisecond)
+	}
 }
